@@ -105,7 +105,7 @@ func runPool(sc *PoolSc) *poolObs {
 				case wake <- struct{}{}:
 				default:
 				}
-				<-p.gate
+				gateWait(p.gate)
 			} else if len(sc.DurMs) > 0 {
 				time.Sleep(time.Duration(sc.DurMs[tid%len(sc.DurMs)]) * time.Millisecond)
 			}
@@ -144,6 +144,7 @@ func runPool(sc *PoolSc) *poolObs {
 		}()
 		roundEnd := roundFirst + roundTasks
 		lateStarted := false
+		qpRetried := false
 		for {
 			synctest.Wait()
 			returned := false
@@ -173,6 +174,14 @@ func runPool(sc *PoolSc) *poolObs {
 				want := roundEnd - done
 				if want > w {
 					want = w
+				}
+				if np != want && !qpRetried {
+					// The implementation may be parked on a timer of its own (workers started lazily,
+					// admission by polling): let a generous second of virtual time pass - nothing
+					// the harness holds is released meanwhile - and look again.
+					qpRetried = true
+					time.Sleep(time.Second)
+					continue
 				}
 				if np != want {
 					obs.QPFail = fmt.Sprintf("round %d, quiescent point %d: %d tasks in flight, want min(workers=%d, unfinished=%d)=%d", ri, step, np, w, roundEnd-done, want)
@@ -220,6 +229,7 @@ func runPool(sc *PoolSc) *poolObs {
 			parkedL = append(parkedL[:choice], parkedL[choice+1:]...)
 			mu.Unlock()
 			obs.Releases++
+			qpRetried = false
 			close(p.gate)
 		}
 		// after Wait: the waiter reads the plain writes of every task submitted before it
